@@ -7,6 +7,9 @@ require (
 	github.com/jimsnab/go-redisemu v0.0.0
 )
 
-require github.com/google/uuid v1.6.0 // indirect
+require (
+	github.com/anishathalye/porcupine v1.3.0
+	github.com/google/uuid v1.6.0 // indirect
+)
 
 replace github.com/jimsnab/go-redisemu => /repo
